@@ -62,6 +62,17 @@ func genItems(r *vh.Rng, cur []Item) []Item {
 	return out
 }
 
+// genVars draws the variables of a subscribe (nil for a query without variables).
+func genVars(r *vh.Rng, q int) map[string]interface{} {
+	switch QueryVar(q) {
+	case "n":
+		return map[string]interface{}{"n": float64(r.Intn(4))}
+	case "id":
+		return map[string]interface{}{"id": float64(r.Intn(6))}
+	}
+	return nil
+}
+
 func genSync(r *vh.Rng) string {
 	switch k := r.Intn(100); {
 	case k < 55:
@@ -122,7 +133,10 @@ func GenCase(r *vh.Rng, flavor string) Case {
 		live[id] = true
 	}
 	fieldQuery := map[string]int{"a": 0, "s": 1, "items": 2, "obj": 3, "flag": 7, "tick": 8, "f": 10}
-	stale, blocked, slowmw := -1, -1, -1
+	stale, blocked, slowmw, samevars := -1, -1, -1, -1
+	if (flavor == "C02" && r.Chance(30)) || r.Chance(8) {
+		samevars = r.Intn(n)
+	}
 	if r.Chance(15) {
 		slowmw = r.Intn(n)
 	}
@@ -156,6 +170,30 @@ func GenCase(r *vh.Rng, flavor string) Case {
 				c.Ops = append(c.Ops, Op{Op: "mutate", ID: id, Q: r.Intn(FirstBadMutQuery), Sync: "handled"})
 			}
 			c.Ops = append(c.Ops, Op{Op: "release", ID: id, Sync: "settle"})
+		}
+		if i == samevars {
+			// several subscriptions of one connection share a query text and differ in their variables; one is
+			// unsubscribed and subscribed again (same id or another) with new variables
+			q := 12 + r.Intn(2)
+			ids := []string{IDPool[r.Intn(3)], IDPool[r.Intn(len(IDPool))]}
+			for _, id := range ids {
+				c.Ops = append(c.Ops, Op{Op: "unsubscribe", ID: id, Sync: "handled"},
+					Op{Op: "subscribe", ID: id, Q: q, Vars: genVars(r, q), Sync: genSync(r)})
+				live[id] = true
+			}
+			if r.Chance(60) {
+				re := ids[r.Intn(2)]
+				nid := re
+				if r.Bool() {
+					nid = IDPool[r.Intn(len(IDPool))]
+				}
+				c.Ops = append(c.Ops, Op{Op: "unsubscribe", ID: re, Sync: genSync(r)},
+					Op{Op: "subscribe", ID: nid, Q: q, Vars: genVars(r, q), Sync: "settle"})
+				live[nid] = true
+			}
+			c.Ops = append(c.Ops, Op{Op: "set", Field: "a", Int: int64(r.Intn(5)), Sync: "settle"})
+			items = genItems(r, items)
+			c.Ops = append(c.Ops, Op{Op: "set", Field: "items", Items: append([]Item{}, items...), Sync: "settle"})
 		}
 		if i == slowmw && c.Middlewares > 0 {
 			// a computation is held inside an application middleware while other requests with different
@@ -317,6 +355,11 @@ func GenCase(r *vh.Rng, flavor string) Case {
 				Mode: r.Pick([]string{"plain", "safe", "panic"}), Sync: genSync(r)})
 		}
 	}
+	for k := range c.Ops {
+		if o := &c.Ops[k]; o.Op == "subscribe" && o.Vars == nil {
+			o.Vars = genVars(r, o.Q)
+		}
+	}
 	return c
 }
 
@@ -404,6 +447,11 @@ func Variant(r *vh.Rng, seed Case) Case {
 			if isMessage(c.Ops[i]) {
 				c.Ops = insertOps(c.Ops, i+1, Op{Op: r.Pick([]string{"unsubscribe", "subscribe", "mutate"}), ID: c.Ops[i].ID, Q: r.Intn(FirstBadMutQuery), Sync: genSync(r)})
 			}
+		}
+	}
+	for k := range c.Ops {
+		if o := &c.Ops[k]; o.Op == "subscribe" && o.Vars == nil {
+			o.Vars = genVars(r, o.Q)
 		}
 	}
 	return c
